@@ -1,6 +1,7 @@
 package main
 
 import (
+	"sync/atomic"
 	"encoding/json"
 	"fmt"
 	"math/rand/v2"
@@ -594,11 +595,24 @@ func c47EvalSeq(seq *pathpol.Sequence, paths []*c47Path) []bool {
 
 // c47JudgeSeq compares the implementation's verdict for every path with the
 // reference and attributes mismatches.
+var c47Broken atomic.Int64
+
 func c47JudgeSeq(r *mon.Run, root *c47Node, expr string, hopLists [][]c47Hop, sampleEvery int) {
 	next := 0
 	c47Number(root, &next)
 	spell := c47SpellClass(root)
 	sig := c47OpsSignature(root)
+	// A policy with a broken sequence was submitted before (and refused): what
+	// the parser did with it must leave no trace in the next, valid one.
+	if c47Broken.Add(1)%4 == 0 {
+		bad := []string{expr + ")", "(" + expr, expr + " |", "0-0#", expr + " 1-ff00:0:110 0* 1-ff00:0:112)", "1-ff00:0:110 ?? 2", ""}[int(c47Broken.Load()/4)%7]
+		var berr error
+		if p, stack := mon.Try(func() { _, berr = pathpol.NewSequence(bad) }); p != nil {
+			r.Violation("C47:panic:"+mon.PanicSite(stack), fmt.Sprintf("NewSequence(%q) panicked: %v", bad, p), c47SeqWitness{Expr: bad})
+		} else if berr != nil {
+			r.Event("seq_rejected_before_valid")
+		}
+	}
 	var seq *pathpol.Sequence
 	var err error
 	if p, stack := mon.Try(func() { seq, err = pathpol.NewSequence(expr) }); p != nil {
@@ -1453,5 +1467,5 @@ func checkC47(r *mon.Run) {
 		c47CheckPolicy(r, rng, i)
 	}
 
-	r.Require(int64(nExpr)*20, 60, "seq_match", "seq_nomatch", "acl_judged", "policy_judged", "acl_filter", "policy_filter")
+	r.Require(int64(nExpr)*20, 60, "seq_rejected_before_valid", "seq_match", "seq_nomatch", "acl_judged", "policy_judged", "acl_filter", "policy_filter")
 }
